@@ -263,7 +263,7 @@ Proof. exact wd_premises. Qed.
 (* ------------------------------------------------------------------ statement level: ORDER BY / LIMIT / GROUP BY above the plans with a context *)
 (* Model/CachePlans.v: Optimizer.buildFinalPlan's stacking (Model/SelectPlans.v [shape]) of
    FinalOrderPlan (Model/Order.v), FinalLimitPlan (Model/LimitLazy.v: the child is PULLED) and
-   AggregatePlan (Model/Aggregate.v) on the plans that carry an ExecuteCtx: Model/Cache.v's
+   AggregatePlan (Model/Aggregate.v + Model/AggregateLazy.v) on the plans that carry an ExecuteCtx: Model/Cache.v's
    ProjectionPlan.Next, Model/CacheVec.v's ProjectionPlan.Batch, and the twin of what
    AggregatePlan.prepare / prepareBatch do with the context (row mode: child.Next(nil), then per
    pair ctx.Clear(), GROUP BY expressions, key fields of a NEW group, aggregate arguments except
@@ -274,11 +274,12 @@ Proof. exact wd_premises. Qed.
    definition the select list gives it.  [shape]: the plan buildFinalPlan returns ([cq_shape]);
    the theorems hold for every shape.  Aggregate select fields are Spec/Group.v [aexpr]s (numbers,
    aggregate calls, + - * /): a field that mixes an aggregate call with a field name or a
-   pair-dependent term (`sum(n) + n`) has no twin, and on the real code the cache IS visible
-   there (AggregatePlan.next/batch: Expr.Execute(NewKVP(nil, nil), ctx) finds the last pair's
-   value in the context); see props/C05.json. *)
+   pair-dependent term (`sum(n) + n`) has no twin (AggregatePlan.next / batch evaluate it by
+   execGroupExpr: ctx.Clear(), then Execute on the pair that opened the group -- since the fix
+   "a field name next to an aggregate call was evaluated on no pair at all"; before it the cache
+   was visible there); the harness judges such statements directly; see props/C05.json. *)
 From KV Require Import Model.LimitLazy Model.SelectPlans Model.CachePlans Proofs.CachePlansProofs.
-From KV Require Model.Order Model.Aggregate Spec.Group.
+From KV Require Model.Order Model.Aggregate Model.AggregateLazy Spec.Group.
 
 (* ProjectionPlan [+ FinalOrderPlan, incl. the dropped `order by key asc`] [+ FinalLimitPlan]
    drained by Next until nil, over EVERY sequence of pairs the access path yields: rows and
@@ -319,28 +320,33 @@ Theorem cache_invisible_aggregate_batch :
 Proof. exact cache_invisible_aggregate_batch_lemma. Qed.
 Print Assumptions cache_invisible_aggregate_batch.
 
-(* the per-pair observation: whatever the cache setting and whatever groups exist already, the
-   loop body of AggregatePlan.prepare hands Model/Aggregate.v exactly the values the cache-free
-   evaluator computes on the pair (C03's c_obs_row): a name in a GROUP BY expression, a key field
-   or an aggregate argument denotes the value of its definition on the same pair *)
+(* the per-pair observation: whatever the cache setting and whatever groups exist already, one
+   iteration of AggregatePlan.prepare with the context IS the LAZY observation of the cache-free
+   composition (Model/SelectPlans.v c_lobs_row = Model/AggregateLazy.v lobs_row over the evaluator
+   twins).  Both ask for exactly the same (expression, pair) combinations in the same order --
+   nothing for GROUP BY when AggrAll, the non-aggregate fields on the first pair of a group only,
+   nothing for count's argument -- and get the same values / the same error; the same keys are
+   recorded.  So a name in a GROUP BY expression, a key field or an aggregate argument denotes the
+   value of its definition on the same pair. *)
 Theorem aggregate_observation_exact :
   forall (fo : fops) re (ag : aggops fo) on (q : cq fo), cq_ok fo q = true ->
-  forall p seen kv,
-  obs_row_c fo re ag on q p seen kv =
-  (do o <- c_obs_row fo re (cq_group fo q) (cq_keys fo q) (cq_args fo q) kv;
-   Ok (o, seen_step fo ag p seen (Group.p_g o))).
+  forall p t kv,
+  obs_row_c fo re ag on q p t kv =
+  c_lobs_row fo re ag (cq_group fo q) (cq_keys fo q) (cq_args fo q) p t kv.
 Proof. exact obs_row_c_spec. Qed.
 Print Assumptions aggregate_observation_exact.
 
-(* AggregatePlan(scan) with the context, cache on or off, IS C03's cache-free composition
-   (Model/SelectPlans.v agg_rows / agg_bats) over the same expressions *)
+(* AggregatePlan(scan) with the context, cache on or off, IS C03's cache-free LAZY composition
+   (Model/SelectPlans.v agg_rows / agg_bats over Model/AggregateLazy.v: evaluation discipline of
+   prepare / prepareBatch, rows completed lazily under a pushed-down LIMIT) over the same
+   expressions *)
 Theorem aggregate_row_is_cache_free :
   forall (fo : fops) re (ag : aggops fo) on (q : cq fo) p (ps : list kvpair), cq_ok fo q = true ->
   arows_c fo re ag on q p ps =
   agg_rows kvpair (sel_frow fo re (s_where (cq_sel fo q)))
     (F fo) (fadd fo) (fsub fo) (fmul fo) (fdiv fo) (fltb fo) (a_is0 fo ag) (f_of_Z fo) (a_to_Z fo ag) (f_fmt fo)
-    (a_bits fo ag) (a_json_f fo ag) (a_parse fo ag) (a_json_s fo ag)
-    (c_obs_row fo re (cq_group fo q) (cq_keys fo q) (cq_args fo q)) (aconv_row fo (a_fbits fo ag))
+    (a_bits fo ag) (a_json_f fo ag) (a_parse fo ag) (a_json_s fo ag) AggregateLazy.seen []
+    (c_lobs_row fo re ag (cq_group fo q) (cq_keys fo q) (cq_args fo q)) (aconv_row fo (a_fbits fo ag))
     p (map Some ps).
 Proof. exact arows_c_is_agg_rows. Qed.
 Print Assumptions aggregate_row_is_cache_free.
@@ -351,8 +357,8 @@ Theorem aggregate_batch_is_cache_free :
   abats_c fo re keyfix ag on q B p sl =
   agg_bats kvpair (filter_batch fo re true (s_where (cq_sel fo q)))
     (F fo) (fadd fo) (fsub fo) (fmul fo) (fdiv fo) (fltb fo) (a_is0 fo ag) (f_of_Z fo) (a_to_Z fo ag) (f_fmt fo)
-    (a_bits fo ag) (a_json_f fo ag) (a_parse fo ag) (a_json_s fo ag)
-    (c_obs_batch fo re (cq_group fo q) (cq_keys fo q) (cq_args fo q)) (aconv_row fo (a_fbits fo ag))
+    (a_bits fo ag) (a_json_f fo ag) (a_parse fo ag) (a_json_s fo ag) AggregateLazy.seen []
+    (c_lobs_batch fo re ag (cq_group fo q) (cq_keys fo q) (cq_args fo q)) (aconv_row fo (a_fbits fo ag))
     B p sl.
 Proof. exact abats_c_is_agg_bats. Qed.
 Print Assumptions aggregate_batch_is_cache_free.
